@@ -4,5 +4,6 @@ CONSTANTS
   RethrowUnmatched = TRUE
   FinallyAlways = FALSE
   ObjectMatch = TRUE
+  ObjectMatchValues = TRUE
   ShardK = 0
   ShardN = 1
